@@ -159,6 +159,98 @@ def run(prog):
         errs.append("the fresh label is %s, not the number of variables" % show(r)[:60])
     out.append(inst("VO", "%s:fresh-is-count" % fn.npath, VIOLATION if errs else OK, fn, None,
                     "; ".join(errs) if errs else "fresh variable: label = level = number of variables so far"))
+    out += label_order(prog)
+    out += [force_permutation(prog)]
     if n < 8:
         raise CheckerError("VO: only %d table accesses recognised" % n)
     return out
+
+
+ORD_OPS = ("lt", "le", "gt", "ge", "cmp", "partial_cmp", "max", "min", "clamp")
+
+
+def label_order(prog):
+    """The numeric order of variable *labels* carries no meaning for a diagram: a BDD is ordered by the
+    VarOrder's levels, an SDD by vtree positions.  Ordering comparisons of VarLabels (the derived
+    PartialOrd/Ord operators, or integer comparisons of two label values) are therefore allowed only inside
+    the Ord/PartialOrd impls that give containers a total order for sorting; anywhere else they decide
+    something from label numbering, which is right only for the identity order / identity leaf labelling."""
+    out, control = [], 0
+    for fn in prog.lib_fns:
+        if fn.name.startswith("test") or "::test" in fn.npath:
+            continue
+        in_ord_impl = (fn.impl_trait or "") in ("std::cmp::Ord", "std::cmp::PartialOrd")
+        bad = []
+        for b in fn.blocks:
+            t = b["term"]
+            if t["k"] != "call":
+                continue
+            c = t.get("fn") or {}
+            nm = (c.get("def") or "").split("::")[-1]
+            if nm in ORD_OPS and (c.get("trait") in ("std::cmp::Ord", "std::cmp::PartialOrd")) and \
+                    (c.get("targs") or [None])[0] in ("repr::var_label::VarLabel", "&repr::var_label::VarLabel"):
+                if in_ord_impl:
+                    control += 1
+                else:
+                    bad.append("line %d: VarLabel::%s" % (t.get("line") or 0, nm))
+        if not in_ord_impl and any(bk["term"]["k"] == "call" for bk in fn.blocks):
+            te = fn.terms
+            terms = [c for (c, _) in te.switch_term.values()] + [a for cs in te.calls for a in cs.args] + [te.ret] + \
+                    [v for (_, _, v, _) in te.stores]
+            seen = set()
+            for t in terms:
+                for x in mir.subterms(t):
+                    if x[0] == "bin" and x[1] in ("Lt", "Le", "Gt", "Ge") and show(x) not in seen:
+                        seen.add(show(x))
+                        if dim(fn, x[2]) == "Label" and dim(fn, x[3]) == "Label" and \
+                                _direct_label(x[2]) and _direct_label(x[3]):
+                            bad.append("%s" % show(x)[:80])
+        if bad:
+            out.append(inst("VO", "%s:label-order" % fn.npath, VIOLATION, fn, None,
+                            "ordering comparison of variable labels (%s): the order of variables is given by the "
+                            "VarOrder's levels / the vtree's positions, label numbering agrees with it only for the "
+                            "identity order or identity leaf labelling" % "; ".join(bad[:3])))
+    if control < 3:
+        raise CheckerError("VO label-order: the matcher recognised only %d VarLabel comparisons inside the derived "
+                           "Ord/PartialOrd impls (positive control, expected >= 3)" % control)
+    out.append(inst("VO", "label-order:none-outside-ord-impls", OK, None, None,
+                    "no ordering comparison of VarLabels outside Ord/PartialOrd impls (%d inside, positive control)" % control,
+                    loc="src/repr/var_label.rs:1"))
+    return out
+
+
+def _direct_label(t):
+    t = strip(t)
+    while isinstance(t, tuple) and t and t[0] == "cast":
+        t = strip(t[1])
+    return isinstance(t, tuple) and t and t[0] == "call" and t[1].name in ("value", "value_usize")
+
+
+
+DROPPING = ("filter", "filter_map", "take", "take_while", "skip", "skip_while", "step_by", "dedup", "dedup_by", "dedup_by_key",
+            "retain", "truncate", "pop", "remove", "swap_remove", "drain", "flat_map", "flatten", "chunks", "windows", "nth", "last",
+            "min_by", "max_by", "find", "position")
+
+
+def force_permutation(prog):
+    """Cnf::force_order re-sorts *all* variables in every round: the list of (centre of gravity, variable) pairs has one
+    entry per variable (built from a vector pushed num_vars times, zipped with 0..l), is sorted in place and turned back
+    into positions by enumerate.  Sorting and enumerating keep it a permutation; any adaptor that can drop or repeat
+    entries on the way (filter, take, skip, dedup, ...) yields a `VarOrder` that lists one variable twice and omits another."""
+    fn = prog.find1(name="force_order", self_adt="repr::cnf::Cnf", unit="rsdd-lib")
+    te = fn.terms
+    names = [cs.callee.name for cs in te.calls]
+    for g in prog.lib_fns:
+        if g.npath.startswith(fn.npath + "::{closure"):
+            names += [cs.callee.name for cs in g.terms.calls]
+    need = [n for n in ("zip", "enumerate", "collect") if n not in names] + \
+           ([] if any(n.startswith("sort") for n in names) else ["sort*"])
+    if need:
+        raise CheckerError("VO force_order: pipeline stages %s not found (anchor moved?)" % need)
+    bad = [cs for cs in te.calls if cs.callee.name in DROPPING and
+           ("iter" in cs.callee.key().lower() or "Vec" in cs.callee.key() or "slice" in cs.callee.key())]
+    return inst("VO", "%s:permutation-preserved" % fn.npath, VIOLATION if bad else OK, fn, bad[0].line if bad else None,
+                ("the re-sort pipeline calls %s (line %d): entries can be dropped, so the positions written back are no longer a "
+                 "permutation of the variables (a variable that occurs in no clause keeps a stale position that collides)"
+                 % (bad[0].callee.name, bad[0].line)) if bad else
+                "zip(0..l) → sort → map → enumerate: every variable is re-positioned in every round")
